@@ -32,14 +32,23 @@ func (e Ev) MarshalJSON() ([]byte, error) {
 	return json.Marshal(struct{ ID int }{e.ID})
 }
 
+// EvAny is encodable or not depending on the dynamic type behind its interface field.
+type EvAny struct {
+	ID      int
+	Payload any
+}
+
 const (
 	ok = iota
 	reject
 	unenc
 	timeout
+	dynBad // EvAny whose Payload is a channel: json reports an unsupported *dynamic* type
+	dynOk  // EvAny with an encodable payload (must persist, also after a dynBad publish)
+	nModes
 )
 
-var names = []string{"ok", "reject", "unencodable", "timeout"}
+var names = []string{"ok", "reject", "unencodable", "timeout", "unencodable-dynamic", "ok-dynamic"}
 
 // progStore follows a script: one entry per Append call.
 type progStore struct {
@@ -77,6 +86,7 @@ type tcase struct {
 	Handler   bool  `json:"error_handler"`
 	Preloaded int   `json:"preloaded"`
 	LateSet   bool  `json:"handler_set_at_runtime"`
+	Reentrant bool  `json:"error_handler_publishes"` // the error handler publishes a follow-up event on the same bus
 }
 
 func (t tcase) String() string {
@@ -84,7 +94,7 @@ func (t tcase) String() string {
 	for _, x := range t.Pattern {
 		p = append(p, names[x])
 	}
-	return fmt.Sprintf("pattern=[%s] errorHandler=%v preloaded=%d lateSet=%v", strings.Join(p, ","), t.Handler, t.Preloaded, t.LateSet)
+	return fmt.Sprintf("pattern=[%s] errorHandler=%v preloaded=%d lateSet=%v reentrant=%v", strings.Join(p, ","), t.Handler, t.Preloaded, t.LateSet, t.Reentrant)
 }
 
 type errCall struct {
@@ -93,40 +103,76 @@ type errCall struct {
 	err error
 }
 
-// runCase executes one case on a real bus and returns the violations.
+// runCase executes one case on a real bus (under the controlled scheduler, so that a
+// lock left held shows up as a detected deadlock instead of a hang) and returns the
+// violations.
 func runCase(t tcase) (out []string) {
+	res := vrt.Run(vrt.Config{}, func() { out = runCaseBody(t) })
+	if res.Status != vrt.StatusOK {
+		out = append(out, fmt.Sprintf("a publish blocked for ever or crashed: %s [%s]", res.Status, res.Msg))
+	}
+	return out
+}
+
+func runCaseBody(t tcase) (out []string) {
 	bad := func(f string, a ...any) { out = append(out, fmt.Sprintf(f, a...)) }
+	reentrant := t.Reentrant && t.Handler
 	// script for the store: unencodable publishes never reach Append
 	var script []int
 	for i := 0; i < t.Preloaded; i++ {
 		script = append(script, ok)
 	}
 	for _, b := range t.Pattern {
-		if b != unenc {
+		switch b {
+		case unenc, dynBad:
+			if reentrant {
+				script = append(script, ok)
+			}
+		case dynOk:
+			script = append(script, ok)
+		default:
 			script = append(script, b)
+			if b != ok && reentrant {
+				script = append(script, ok) // the follow-up event published by the error handler
+			}
 		}
 	}
 	st := &progStore{mem: eventbus.NewMemoryStore(), script: script}
 	var errs []errCall
+	var bus *eventbus.EventBus
 	opts := []eventbus.Option{eventbus.WithStore(st), eventbus.WithPersistenceTimeout(time.Millisecond)}
-	eh := func(ev any, et reflect.Type, err error) { errs = append(errs, errCall{ev, et, err}) }
+	eh := func(ev any, et reflect.Type, err error) {
+		errs = append(errs, errCall{ev, et, err})
+		if reentrant {
+			if e, isEv := ev.(Ev); isEv && e.ID < 1000 {
+				eventbus.Publish(bus, Ev{ID: 1000 + e.ID})
+			} else if e, isAny := ev.(EvAny); isAny && e.ID < 1000 {
+				eventbus.Publish(bus, Ev{ID: 1000 + e.ID})
+			}
+		}
+	}
 	if t.Handler && !t.LateSet {
 		opts = append(opts, eventbus.WithPersistenceErrorHandler(eh))
 	}
-	bus := eventbus.New(opts...)
+	bus = eventbus.New(opts...)
 	if t.Handler && t.LateSet {
 		bus.SetPersistenceErrorHandler(eh)
 	}
-	var got []Ev
-	var got2 []Ev
-	eventbus.Subscribe(bus, func(e Ev) { got = append(got, e) })
-	eventbus.SubscribeContext(bus, func(ctx context.Context, e Ev) { got2 = append(got2, e) })
+	var got, got2 []int
+	eventbus.Subscribe(bus, func(e Ev) { got = append(got, e.ID) })
+	eventbus.SubscribeContext(bus, func(ctx context.Context, e Ev) { got2 = append(got2, e.ID) })
+	eventbus.Subscribe(bus, func(e EvAny) { got = append(got, e.ID) })
+	eventbus.SubscribeContext(bus, func(ctx context.Context, e EvAny) { got2 = append(got2, e.ID) })
 	id := 0
-	var wantStored []int
+	type stored struct {
+		id  int
+		typ string
+	}
+	var wantStored []stored
 	for i := 0; i < t.Preloaded; i++ {
 		id++
 		eventbus.Publish(bus, Ev{ID: id})
-		wantStored = append(wantStored, id)
+		wantStored = append(wantStored, stored{id, eventbus.EventType(Ev{})})
 	}
 	got, got2, errs = nil, nil, nil
 	var lastOff eventbus.Offset
@@ -135,7 +181,17 @@ func runCase(t tcase) (out []string) {
 	}
 	for i, b := range t.Pattern {
 		id++
-		ev := Ev{ID: id, Bad: b == unenc}
+		var ev any
+		switch b {
+		case dynBad:
+			ev = EvAny{ID: id, Payload: make(chan int)}
+		case dynOk:
+			ev = EvAny{ID: id, Payload: map[string]any{"k": []int{1}}}
+		default:
+			ev = Ev{ID: id, Bad: b == unenc}
+		}
+		fails := b != ok && b != dynOk
+		noAttempt := b == unenc || b == dynBad
 		callsBefore, errsBefore, gotBefore := st.calls, len(errs), len(got)
 		func() {
 			defer func() {
@@ -143,36 +199,54 @@ func runCase(t tcase) (out []string) {
 					bad("publish %d (%s) panicked: %v", i, names[b], r)
 				}
 			}()
-			eventbus.Publish(bus, ev)
+			switch e := ev.(type) {
+			case Ev:
+				eventbus.Publish(bus, e)
+			case EvAny:
+				eventbus.Publish(bus, e)
+			}
 		}()
-		// delivered to every handler
-		if len(got) != gotBefore+1 || got[len(got)-1] != ev || len(got2) != len(got) || got2[len(got2)-1] != ev {
-			bad("publish %d (%s): event not delivered exactly once to both handlers", i, names[b])
+		followUp := fails && reentrant
+		// delivered to every handler (the follow-up event, if any, first: the error
+		// handler runs before the handlers of the failing publish)
+		wantGot := []int{id}
+		if followUp {
+			wantGot = []int{1000 + id, id}
+		}
+		if fmt.Sprint(got[gotBefore:]) != fmt.Sprint(wantGot) || fmt.Sprint(got2[gotBefore:]) != fmt.Sprint(wantGot) {
+			bad("publish %d (%s): events delivered to the handlers %v / %v, want %v to both", i, names[b], got[gotBefore:], got2[gotBefore:], wantGot)
 		}
 		// append attempts
 		attempts := st.calls - callsBefore
-		switch {
-		case b == unenc && attempts != 0:
-			bad("publish %d (unencodable): Append called %d times", i, attempts)
-		case b != unenc && attempts != 1:
-			bad("publish %d (%s): Append called %d times (want exactly 1: no retry, no skip)", i, names[b], attempts)
+		wantAttempts := 1
+		if noAttempt {
+			wantAttempts = 0
+		}
+		if followUp {
+			wantAttempts++
+		}
+		if attempts != wantAttempts {
+			bad("publish %d (%s): Append called %d times, want %d (no retry, no skip)", i, names[b], attempts, wantAttempts)
 		}
 		// error handler
 		newErrs := len(errs) - errsBefore
 		wantErrs := 0
-		if b != ok && t.Handler {
+		if fails && t.Handler {
 			wantErrs = 1
 		}
 		if newErrs != wantErrs {
 			bad("publish %d (%s): persistence error handler called %d times, want %d", i, names[b], newErrs, wantErrs)
 		} else if wantErrs == 1 {
-			ec := errs[len(errs)-1]
-			if ec.ev != any(ev) || ec.t != reflect.TypeOf(ev) || ec.err == nil {
+			ec := errs[errsBefore]
+			if !reflect.DeepEqual(evID(ec.ev), id) || ec.t != reflect.TypeOf(ev) || ec.err == nil {
 				bad("publish %d (%s): error handler got (%v, %v, %v), want the event, its type and a non-nil error", i, names[b], ec.ev, ec.t, ec.err)
 			}
 		}
-		if b == ok {
-			wantStored = append(wantStored, id)
+		if followUp {
+			wantStored = append(wantStored, stored{1000 + id, eventbus.EventType(Ev{})})
+		}
+		if !fails {
+			wantStored = append(wantStored, stored{id, eventbus.EventType(ev)})
 		}
 		// store content after each publish
 		evs, _, err := st.mem.Read(context.Background(), eventbus.OffsetOldest, 0)
@@ -185,21 +259,33 @@ func runCase(t tcase) (out []string) {
 		}
 		for j, se := range evs {
 			var d struct{ ID int }
-			if json.Unmarshal(se.Data, &d) != nil || d.ID != wantStored[j] || se.Type != eventbus.EventType(ev) {
-				bad("after publish %d (%s): stored event %d is %s %s, want id %d", i, names[b], j, se.Type, se.Data, wantStored[j])
+			if json.Unmarshal(se.Data, &d) != nil || d.ID != wantStored[j].id || se.Type != wantStored[j].typ {
+				bad("after publish %d (%s): stored event %d is %s %s, want id %d", i, names[b], j, se.Type, se.Data, wantStored[j].id)
 			}
 			if j > 0 && !(evs[j-1].Offset < se.Offset) {
 				bad("after publish %d: offsets not increasing: %q then %q", i, evs[j-1].Offset, se.Offset)
 			}
 		}
-		if b == ok && len(evs) > 0 {
+		if !fails && len(evs) > 0 {
 			if !(lastOff < evs[len(evs)-1].Offset) {
 				bad("publish %d (ok): offset %q not larger than the previous successful one %q", i, evs[len(evs)-1].Offset, lastOff)
 			}
+		}
+		if len(evs) > 0 {
 			lastOff = evs[len(evs)-1].Offset
 		}
 	}
 	return out
+}
+
+func evID(ev any) int {
+	switch e := ev.(type) {
+	case Ev:
+		return e.ID
+	case EvAny:
+		return e.ID
+	}
+	return -1
 }
 
 func cases(thorough bool) []tcase {
@@ -211,20 +297,23 @@ func cases(thorough bool) []tcase {
 	for length := 1; length <= n; length++ {
 		total := 1
 		for i := 0; i < length; i++ {
-			total *= 4
+			total *= nModes
 		}
 		for code := 0; code < total; code++ {
 			p := make([]int, length)
 			c := code
 			for i := range p {
-				p[i] = c % 4
-				c /= 4
+				p[i] = c % nModes
+				c /= nModes
 			}
 			for _, hd := range []bool{false, true} {
 				for _, pre := range []int{0, 2} {
 					l = append(l, tcase{Pattern: p, Handler: hd, Preloaded: pre})
 					if hd {
 						l = append(l, tcase{Pattern: p, Handler: hd, Preloaded: pre, LateSet: true})
+						if pre == 0 {
+							l = append(l, tcase{Pattern: p, Handler: hd, Reentrant: true})
+						}
 					}
 				}
 			}
@@ -244,7 +333,7 @@ func run(c *h.Check) {
 		c.Count("evaluations", 1)
 		nt := false
 		for _, b := range t.Pattern {
-			nt = nt || b != ok
+			nt = nt || (b != ok && b != dynOk)
 		}
 		if nt {
 			c.Count("nontrivial", 1)
@@ -256,8 +345,14 @@ func run(c *h.Check) {
 			// signature: the kind of failure at the failing publish, independent of the
 			// rest of the pattern
 			sig := v
+			if k := strings.Index(v, " ["); k > 0 && strings.HasPrefix(v, "a publish blocked") {
+				sig = v[:k]
+				if t.Reentrant {
+					sig += " (error handler publishes on the same bus)"
+				}
+			}
 			if k := strings.Index(v, ":"); k > 0 && strings.HasPrefix(v, "publish ") {
-				sig = v[strings.Index(v, "(") : strings.Index(v, ")")+1] + v[k:]
+				sig = v[strings.Index(v, "("):strings.Index(v, ")")+1] + v[k:]
 			}
 			c.Violate("persistence-failure", sig, t.String()+"\n"+v, t)
 		}
@@ -281,6 +376,6 @@ func main() {
 		"the timeout case uses WithPersistenceTimeout(1ms) over a store whose Append waits for its context: the outcome is forced (always expires), the 1 ms is not an oracle",
 		"faults are injected at the EventStore interface (a wrapper around MemoryStore)",
 	}, run, replay, func(tier string) map[string]any {
-		return map[string]any{"rule": "every pattern over {ok, reject, unencodable, timeout} of length 1..3 (quick) / 1..4 (thorough) x {no error handler, handler by option, handler by setter} x {fresh bus, bus that already persisted 2 events}; non-trivial = contains at least one failing publish; all cases are distinct by construction"}
+		return map[string]any{"rule": "every pattern over {ok, reject, unencodable (MarshalJSON error), timeout, unencodable through a dynamic value behind an interface field, encodable value of that same type} of length 1..3 (quick) / 1..4 (thorough) x {no error handler, handler by option, handler by setter, handler that publishes a follow-up event on the same bus} x {fresh bus, bus that already persisted 2 events}; non-trivial = contains at least one failing publish; all cases are distinct by construction"}
 	})
 }
